@@ -226,6 +226,14 @@ def run(ctx):
     hash_seed_sweep(ctx, random.Random(ctx.seed + 31))
     param_file_runs(ctx, random.Random(ctx.seed + 37))
     generators_side_by_side(ctx, random.Random(ctx.seed + 41))
+    # "different seeds give different workloads" at the sensitivity-sample entry point: sample i is generated from seed start + i (the wiring check of C20)
+    import tempfile
+    from props import c20
+    n0 = len(ctx.violations)
+    with tempfile.TemporaryDirectory() as td:
+        c20.check_seeds(ctx, random.Random(ctx.seed + 43), td, start=5, file_seed=99)
+    for v in ctx.violations[n0:]:
+        v["sig"] = {"clause": "seed-ignored"}
     seed_sweep(ctx, rng)
     settings_sweep(ctx, rng)
     dag_order_runs(ctx, rng)
